@@ -70,6 +70,24 @@ def run(c):
         g = c.gotest("node", "TestEnvReplay", env=dict(NODE_DUMP=d, NODE_ME=me), timeout=6000, tag="replay walks me=%d" % me)
         c.absorb(g)
         os.remove(d)
+    # skewed powers whose total is divisible by three (2,2,1,1: exactly two thirds is 4 of 6 - not a majority), and the
+    # default configuration (round 1 proposed on the NewRound timeout)
+    pw = (2, 2, 1, 1)
+    tablew = nc.proposer_table(c, powers=pw)
+    for me in ((1, 3) if th else (3,)):
+        d = nc.env_bfs(c, tablew, me, 2, "bfs2-w2211-me%d" % me, powers=pw)
+        g = c.gotest("node", "TestEnvReplay", env=dict(NODE_DUMP=d, NODE_ME=me, NODE_LASTONLY=1, NODE_POWERS="2,2,1,1", NODE_STRIDE=(1 if th else 3)),
+                     timeout=6000, tag="replay bfs w2211 me=%d" % me)
+        c.absorb(g)
+        os.remove(d)
+        d = nc.env_walks(c, tablew, me, (300 if th else 10), 50, c.seed * 100 + 20 + me, "walks-w2211-me%d" % me, powers=pw)
+        g = c.gotest("node", "TestEnvReplay", env=dict(NODE_DUMP=d, NODE_ME=me, NODE_POWERS="2,2,1,1"), timeout=6000, tag="replay walks w2211 me=%d" % me)
+        c.absorb(g)
+        os.remove(d)
+    d = nc.env_walks(c, table, 1, (300 if th else 10), 50, c.seed * 100 + 31, "walks-wait-me1", waittxs=True)
+    g = c.gotest("node", "TestEnvReplay", env=dict(NODE_DUMP=d, NODE_ME=1, NODE_WAITTXS=1), timeout=6000, tag="replay walks (WaitForTxs) me=1")
+    c.absorb(g)
+    os.remove(d)
     # three block ids, higher rounds
     d = nc.env_walks(c, table, 3, (300 if th else 8), 60, c.seed * 100 + 9, "walks-3bids", maxround=4, bids='{"A", "B", "X"}')
     g = c.gotest("node", "TestEnvReplay", env=dict(NODE_DUMP=d, NODE_ME=3), timeout=6000, tag="replay walks 3 bids")
